@@ -167,6 +167,7 @@ def k_send_command(ip, args, kwargs):
         if code == "OK" and isinstance(name, str) and name == "GETSCRIPT":
             # conforming server (RFC 5804 2.9): OK to GETSCRIPT is preceded by the script literal and its CRLF
             core.assume(z3.Length(content.t) > 0)
+        G["last_content"] = content
         return (code, data, content)
     return (code, data)
 
@@ -533,3 +534,22 @@ def h_status(mname):
             prove(r is True, "S3.OK-gives-True")
         else:
             prove(r is False, "S3.NO-gives-False")
+
+
+# ----------------------------------------------------------------------------- C16.D DIGEST-MD5
+
+def h_digest():
+    """_digest_md5_authentication must run to a boolean result or Error (it cannot: digest_md5.py is Python 2 code)"""
+    c = new_client()
+    login = sym_bytes("login")
+    password = sym_bytes("password")
+    kind = None
+    try:
+        r = c._digest_md5_authentication(login, password, b"")
+        kind = "return"
+    except managesieve.Error:
+        kind = "Error"
+    except Exception as e:
+        kind = "crash"
+        note("exception", type(e).__name__)
+    prove(kind != "crash", "D.digest-md5-exchange-runs")
